@@ -31,7 +31,8 @@ from .core import HarnessError, jdump, sha
 from .nodes import NodeCrashed
 from .sim_aoef import AoefSim, FILES, _brief
 
-SCORE_VALUES_VALID = [0.0, 1.0, -0.0, 0.5, 5e-324, math.nextafter(1.0, 0.0)]
+SCORE_VALUES_VALID = [0.0, 1.0, -0.0, 0.5, 5e-324, math.nextafter(1.0, 0.0),
+                      0, 1]  # whole numbers too: JSON "1", Python int
 SCORE_VALUES_INVALID = [
     math.nextafter(0.0, -1.0),
     math.nextafter(1.0, 2.0),
@@ -40,6 +41,8 @@ SCORE_VALUES_INVALID = [
     1e308,
     -1e-9,
     1.0000001,
+    -1,
+    2,
 ]
 
 # (list, field, kind) of number fields in a stored document
@@ -91,6 +94,18 @@ RECORD_LISTS = [
 ]
 
 
+# reference fields the five conditions of C04 speak about; a fault on any other
+# reference (a sequence's members, a clip's recording, an annotation's sound
+# event) changes content that C04 says nothing about, and a schema rule of its
+# own may rightly refuse the result
+C04_SITES = {
+    "clip_evaluations.matches", "clip_evaluations.annotations",
+    "clip_evaluations.predictions", "clip_annotations.sound_events",
+    "clip_predictions.sound_events", "clip_annotations.clip",
+    "clip_predictions.clip", "matches.source", "matches.target", "tasks.clip",
+}
+
+
 def _pick(seq, n):
     return seq[n % len(seq)] if seq else None
 
@@ -130,7 +145,7 @@ def apply_doc_fault(doc, f, other_doc=None):
         recs = [r for r in data[pick[0]] if r.get(pick[1])]
         rec = _pick(recs, b)
         del rec[pick[1]][c % len(rec[pick[1]])]
-        return True
+        return f"{pick[0]}.{pick[1]}"
 
     if kind == "dup_ref":
         cands = [
@@ -144,7 +159,7 @@ def apply_doc_fault(doc, f, other_doc=None):
         recs = [r for r in data[pick[0]] if r.get(pick[1])]
         rec = _pick(recs, b)
         rec[pick[1]].append(rec[pick[1]][c % len(rec[pick[1]])])
-        return True
+        return f"{pick[0]}.{pick[1]}"
 
     if kind == "dup_record":
         # the same record again under a new id, referenced from its parent
@@ -181,7 +196,7 @@ def apply_doc_fault(doc, f, other_doc=None):
         if not others:
             return False
         rec[pick[1]] = _pick(others, c)
-        return True
+        return f"{pick[0]}.{pick[1]}"
 
     if kind == "misdirect_member":
         cands = [
@@ -202,7 +217,7 @@ def apply_doc_fault(doc, f, other_doc=None):
         if not others:
             return False
         rec[pick[1]][pos] = _pick(others, c // 7)
-        return True
+        return f"{pick[0]}.{pick[1]}"
 
     if kind == "null_side":
         rec = _pick(data.get("matches") or [], a)
@@ -244,6 +259,10 @@ def apply_doc_fault(doc, f, other_doc=None):
             rec["end_time"] = rec["start_time"]
         elif mode == "after":
             rec["start_time"] = math.nextafter(rec["end_time"], math.inf)
+        elif mode == "ints":
+            rec["start_time"], rec["end_time"] = [
+                (5, 3), (1, 0), (2, 2), (0, 1), (0, 0), (3, 5)
+            ][c % 6]
         return True
 
     if kind == "splice":
@@ -357,7 +376,7 @@ def _number_sites(data, t):
     return sites
 
 
-def doc_verdict(doc):
+def doc_verdict(doc, reachable_only=True):
     """(closed, broken): closed under reference (as C02 defines it) and the
     list of broken C04 invariants of the stored arrangement."""
     try:
@@ -367,7 +386,9 @@ def doc_verdict(doc):
     if analysis["problems"]:
         return False, []
     try:
-        return True, arrangement.check(arrangement.from_doc(doc))
+        return True, arrangement.check(
+            arrangement.from_doc(doc, reachable_only)
+        )
     except (KeyError, TypeError):
         return False, [("unreadable", "doc")]
 
@@ -471,6 +492,7 @@ class InvSim(AoefSim):
         self.docs[dst] = {
             "faults": list(self.docs[src]["faults"]),
             "type": self.docs[src]["type"],
+            "foreign": self.docs[src].get("foreign", False),
         }
         self.record(op, "ok", doc=sha(raw))
         self.trace.append(("copy",))
@@ -514,12 +536,12 @@ class InvSim(AoefSim):
             self.trace.append(("corrupt", f["kind"]))
             return
         try:
-            doc = json.loads(raw.decode("utf-8"))
+            doc = json.loads(raw.decode("utf-8-sig"))
             other = None
             if f["kind"] == "splice":
                 other_raw = self.read_bytes(f.get("from", 0))
                 if other_raw is not None and f.get("from", 0) % len(FILES) != p % len(FILES):
-                    other = json.loads(other_raw.decode("utf-8"))
+                    other = json.loads(other_raw.decode("utf-8-sig"))
             changed = apply_doc_fault(doc, f, other)
         except (UnicodeDecodeError, ValueError, KeyError, TypeError, AttributeError, IndexError):
             self.record(op, "skipped-unparseable")
@@ -535,6 +557,9 @@ class InvSim(AoefSim):
         if len(text.encode("utf-8")) == len(raw):
             self.probes.hit("C04:fault-kept-file-size")
         state["faults"].append(f["kind"])
+        if isinstance(changed, str) and changed not in C04_SITES:
+            state["foreign"] = True
+            self.probes.hit("C04:fault-on-a-reference-outside-the-statement")
         self.faults_fired.hit(f"doc:{f['kind']}")
         self.record(op, "applied", doc=sha(text))
         self.trace.append(("corrupt", f["kind"]))
@@ -559,13 +584,15 @@ class InvSim(AoefSim):
         outcome = reply["outcome"]
         oclass = outcome if outcome != "raised" else f"raised:{reply['exc']}"
         try:
-            doc = json.loads(raw.decode("utf-8"))
+            doc = json.loads(raw.decode("utf-8-sig"))
             closed, broken = doc_verdict(doc)
+            broken_anywhere = doc_verdict(doc, reachable_only=False)[1]
             n_units = len(doc["data"].get("clip_evaluations") or []) + len(
                 doc["data"].get("tasks") or []
             )
         except (UnicodeDecodeError, ValueError, KeyError, TypeError, AttributeError):
             doc, closed, broken, n_units = None, False, [("unparseable", "doc")], 0
+            broken_anywhere = broken
         self.record(
             op, oclass, closed=closed, broken=[b[0] for b in broken],
             faults=list(state["faults"]),
@@ -614,7 +641,9 @@ class InvSim(AoefSim):
                 )
         else:
             # 2. completeness: a closed, valid stored arrangement must load
-            if closed and not broken and not (
+            # (not claimed once a fault touched a reference the statement
+            # does not speak about)
+            if closed and not broken_anywhere and not state.get("foreign") and not (
                 {"flip", "truncate"} & set(state["faults"])
             ):
                 self.violate(
@@ -769,6 +798,41 @@ def mutate(spec, rng, seed_tag):
         s["matches"].append(m)
         return len(s["matches"]) - 1
 
+    def edit_match(e, pos, m):
+        """Install the changed match m at position pos of evaluation e: under
+        a new identifier, or (in-place history) as the same match, edited."""
+        if inplace:
+            s["matches"][e["matches"][pos]] = m
+        else:
+            e["matches"][pos] = new_match(m)
+
+    def match_target(j, operator):
+        """The match alone is the target; it is stored inside a clip
+        evaluation made for it (its events annotated / predicted, nothing
+        else), so that every loader has to build it."""
+        m = s["matches"][j]
+        s["clip_annotations"].append({
+            "uuid": _new_uuid(rng.getrandbits(40)), "clip": 0,
+            "sound_events": [] if m.get("target") is None else [m["target"]],
+        })
+        s["clip_predictions"].append({
+            "uuid": _new_uuid(rng.getrandbits(40)), "clip": 0,
+            "sound_events": [] if m.get("source") is None else [m["source"]],
+        })
+        s["clip_evaluations"].append({
+            "uuid": _new_uuid(rng.getrandbits(40)),
+            "annotations": len(s["clip_annotations"]) - 1,
+            "predictions": len(s["clip_predictions"]) - 1,
+            "matches": [j],
+        })
+        s["roots"]["evaluation"]["clip_evaluations"] = [
+            len(s["clip_evaluations"]) - 1
+        ]
+        return {
+            "spec": s, "operator": operator, "root": "evaluation",
+            "target": {"cls": "Match", "index": j},
+        }
+
     if name == "identity" and ces:
         return ce_target(rng.choice(ces))
     if name == "drop_match" and ces_m:
@@ -801,18 +865,13 @@ def mutate(spec, rng, seed_tag):
             return None
         m = dict(src)
         m[side] = None
-        e["matches"][pos] = new_match(m)
+        edit_match(e, pos, m)
         return ce_target(i)
     if name == "null_match" and s["matches"]:
         j = rng.randrange(len(s["matches"]))
         s["matches"][j]["source"] = None
         s["matches"][j]["target"] = None
-        s["roots"]["evaluation"]["clip_evaluations"] = []
-        return {
-            "spec": s, "operator": name, "root": "evaluation",
-            "target": {"cls": "Match", "index": j},
-            "extra": {"matches": [j], "only": True},
-        }
+        return match_target(j, name)
     if name == "mismatch_clip" and ces:
         i = rng.choice(ces)
         e = s["clip_evaluations"][i]
@@ -878,7 +937,7 @@ def mutate(spec, rng, seed_tag):
                 if s["matches"][j].get(mside) == old:
                     m = dict(s["matches"][j])
                     m[mside] = new
-                    e["matches"][k] = new_match(m)
+                    edit_match(e, k, m)
         return ce_target(i)
     if name == "same_match_twice" and ces_m:
         # the very same match (same identifier) listed twice
@@ -902,7 +961,7 @@ def mutate(spec, rng, seed_tag):
         a, b = rng.sample(with_side, 2)
         m = dict(s["matches"][e["matches"][a]])
         m[side] = s["matches"][e["matches"][b]][side]
-        e["matches"][a] = new_match(m)
+        edit_match(e, a, m)
         return ce_target(i)
     if name == "extra_one_sided" and ces_m:
         # an event that is already matched is mentioned again by a
@@ -992,13 +1051,7 @@ def mutate(spec, rng, seed_tag):
         cls, j, field = rng.choice(sites)
         if cls == "Match":
             s["matches"][j][field] = value
-            s["roots"]["evaluation"]["clip_evaluations"] = []
-            return {
-                "spec": s, "operator": f"number:{cls}.{field}",
-                "root": "evaluation",
-                "target": {"cls": "Match", "index": j},
-                "extra": {"matches": [j], "only": True},
-            }
+            return match_target(j, f"number:{cls}.{field}")
         if cls == "ClipEvaluation":
             s["clip_evaluations"][j]["score"] = value
             out = ce_target(j)
@@ -1038,8 +1091,13 @@ def mutate(spec, rng, seed_tag):
     if name == "clip_times" and s["clips"]:
         j = rng.randrange(len(s["clips"]))
         c = s["clips"][j]
-        mode = rng.choice(["swap", "equal", "after", "before"])
-        if mode == "swap":
+        mode = rng.choice(["swap", "equal", "after", "before", "ints"])
+        if mode == "ints":
+            # whole numbers, as a caller or a hand-written document has them
+            c["start_time"], c["end_time"] = rng.choice(
+                [(5, 3), (1, 0), (2, 2), (0, 0), (0, 1), (3, 5)]
+            )
+        elif mode == "swap":
             c["start_time"], c["end_time"] = c["end_time"], c["start_time"]
         elif mode == "equal":
             c["end_time"] = c["start_time"]
@@ -1114,6 +1172,9 @@ def draw_run_cfg(rng, focus, tier):
     }
     if not spec_cfg.get("large"):
         spec_cfg.update(sizes)
+    # repeated references only in the lists the statement speaks about
+    spec_cfg["dup_fields"] = [["clip_annotations", "sound_events"],
+                              ["clip_predictions", "sound_events"]]
     return {
         "focus": "C04",
         "n_nodes": rng.choice([1, 2, 3]),
@@ -1143,7 +1204,7 @@ def draw_fault(rng, kinds):
     if kind == "number":
         f["value"] = rng.choice(SCORE_VALUES_INVALID + SCORE_VALUES_VALID)
     if kind == "clip_times":
-        f["mode"] = rng.choice(["swap", "after", "equal"])
+        f["mode"] = rng.choice(["swap", "after", "equal", "ints"])
     if kind == "clip_times_equal":
         f["kind"] = "clip_times"
         f["mode"] = "equal"
@@ -1296,6 +1357,7 @@ ASSUMPTIONS = [
     "completeness is claimed only for stored documents that are closed under "
     "reference and satisfy every invariant",
 ]
+SEAM_PROBES = {"C04": ["store:interrupted-by-fault"]}
 CORE_PROBES = {
     "C04": [
         "C04:faulted-load-checked>=2",
